@@ -110,8 +110,12 @@ def main():
                 w = d['wrappers'][wi]
                 if not (w['flags'] & cbn) or not w['name']:
                     continue
-                ret = d['types'][w['return_type']]['true_name'] if (w['flags'] & hasret) and w['return_type'] else 'void'
-                ps = ', '.join(d['types'][q['type']]['true_name'] for q in w['parameters'])
+                def ctype(ti):
+                    t = d['types'][ti]
+                    # the database spells the -string pseudo type "atomic string"; in the C signature it is a C string
+                    return 'char const *' if t['true_name'] == 'atomic string' else t['true_name']
+                ret = ctype(w['return_type']) if (w['flags'] & hasret) and w['return_type'] else 'void'
+                ps = ', '.join(ctype(q['type']) for q in w['parameters'])
                 decls.append('extern "C" %s %s(%s);' % (ret, w['name'], ps))
                 if not re.search(r'\b%s\s*\(' % re.escape(w['name']), code):
                     ck.spec_failure('undefined-wrapper', 'wrapper %s is listed in the database but not defined in the code' % w['name'], replay)
